@@ -397,7 +397,7 @@ class C30(Check):
 
     def run_shard(self, tier, seed, shard, nshards):
         res = ShardResult()
-        n = 8000 if tier == "thorough" else 700
+        n = 10000 if tier == "thorough" else 1200
 
         def nontrivial(ops):
             s = Sim.last
